@@ -170,6 +170,46 @@ pub struct SimAbort;
 /// Unwinding payload of a cancelled stream (the harness callback unwinds).
 pub struct Cancelled;
 
+thread_local! {
+  /// Collaborator fault armed for the op this thread is executing: the n-th
+  /// fault point from now unwinds (once), see `fault_point`.
+  static CHILD_FAULT: std::cell::Cell<Option<u32>> = const { std::cell::Cell::new(None) };
+}
+
+/// Arms a one-shot collaborator fault for the current thread; the returned
+/// guard disarms it (also when the op unwinds for another reason).
+pub struct FaultArmed;
+pub fn arm_fault(at: u32) -> FaultArmed {
+  CHILD_FAULT.with(|c| c.set(Some(at)));
+  FaultArmed
+}
+impl Drop for FaultArmed {
+  fn drop(&mut self) {
+    CHILD_FAULT.with(|c| c.set(None));
+  }
+}
+
+/// A place in *caller-supplied* code (a method of a user-defined child
+/// source, a consumer callback) where the collaborator may fail: if a fault is
+/// armed and its countdown is used up, the collaborator unwinds here, exactly
+/// once. Not a scheduling point and draws nothing: schedules are unaffected.
+pub fn fault_point() {
+  let fire = CHILD_FAULT.with(|c| match c.get() {
+    Some(0) => {
+      c.set(None);
+      true
+    }
+    Some(n) => {
+      c.set(Some(n - 1));
+      false
+    }
+    None => false,
+  });
+  if fire {
+    std::panic::resume_unwind(Box::new(Cancelled));
+  }
+}
+
 #[derive(Clone, Debug, Default, Serialize, Deserialize)]
 pub struct SimStats {
   pub decisions: u64,
